@@ -1,0 +1,54 @@
+//go:build verif
+
+package signaling_rpc_client
+
+import (
+	"fmt"
+	"sync"
+)
+
+var verifSinkMtx sync.Mutex
+var verifSink func(line string)
+
+// VerifSetSink sets the sink receiving one line per client tracker critical section.
+func VerifSetSink(f func(line string)) {
+	verifSinkMtx.Lock()
+	verifSink = f
+	verifSinkMtx.Unlock()
+}
+
+func verifEmit(line string) {
+	verifSinkMtx.Lock()
+	f := verifSink
+	verifSinkMtx.Unlock()
+	if f != nil {
+		f(line)
+	}
+}
+
+func verifOptU(p *uint64) string {
+	if p == nil {
+		return "-"
+	}
+	return fmt.Sprint(*p)
+}
+
+// verifTracker renders the guarded fields of the tracker. Caller holds t.bcast.
+func verifTracker(t *clientPeerTracker) string {
+	out, recv := "-", "-"
+	if t.out != nil {
+		out = fmt.Sprint(t.out.GetSeqno())
+	}
+	if t.recv != nil {
+		recv = fmt.Sprint(t.recv.GetSeqno())
+	}
+	return fmt.Sprintf("open=%s out=%s sent=%v acked=%v cancel=%v recv=%s proc=%v", verifOptU(t.open), out, t.outSent, t.outAcked, t.outCancel, recv, t.recvProcessed)
+}
+
+func verifClientEvent(t *clientPeerTracker, kind string, a, b uint64, flag bool, sessSeqno *uint64, acked bool) {
+	verifEmit(fmt.Sprintf("ev=%s tkr=%p a=%d b=%d flag=%v ss=%s acked=%v %s", kind, t, a, b, flag, verifOptU(sessSeqno), acked, verifTracker(t)))
+}
+
+func verifClientLoop(t *clientPeerTracker, sessSeqno, cancelMsg, sendMsg, ackMsg uint64) {
+	verifEmit(fmt.Sprintf("ev=txloop tkr=%p epoch=%d cancelmsg=%d sendmsg=%d ackmsg=%d %s", t, sessSeqno, cancelMsg, sendMsg, ackMsg, verifTracker(t)))
+}
